@@ -36,6 +36,16 @@ theorem cgrSources : cgrSourcesB D S = true := by decide
 theorem validOrder : validOrderB D S = true := by decide
 theorem cycleEager : cycleEagerB D v S run = true := by decide
 theorem cycleRR : cycleRRB D v S comp runRR = true := by decide
+theorem eager : eagerB D v S run = true := by decide
+theorem grants : grantsB D v run = true := by decide
+theorem methodRun : methodRunB D v run = true := by decide
+theorem bounded : boundedB D = true := by decide
+theorem exclReady : decide (ExclReady D v) = true := by decide
+theorem runnable1 : runnableB D v run 1 = true := by decide
+theorem runnable2 : runnableB D v run 2 = true := by decide
+theorem accept' : accept D S.ord = true := by decide
+theorem cgrEq : ((List.range 5).all fun a => (List.range 5).all fun b => cgrOf D a b == S.cgr a b) = true := by
+  decide
 
 /-- the module the design was extracted from: the three transaction bodies (`AvoidedIf`) one after
 the other, the third containing `If(c7) … Else …`; site 100 stands for the definitions at top level -/
@@ -53,35 +63,3 @@ theorem bodiesPlaced : BodiesPlaced D v cv [(0, tree)] := by decide
 
 end TxV.Core.Ex
 
-/-!
-# Second example: nonexclusive common ancestor, call chains of depth 2, a nested transaction
-
-`T0` and `T1` both call nonexclusive `N`, which calls exclusive `M`; transaction `K` is nested in
-`N` (ready-dependent on it).  No conflict edges: `M` is reached only through the common
-nonexclusive ancestor.  In the example cycle everything runs; `M` has a single active call site.
--/
-namespace TxV.Core.Ex2
-open TxV.Core.Ex (p)
-
-def D : Design := ⟨[
-  ⟨true,  p [], false, false, false, [⟨2, p [(0,0)], 0⟩], []⟩,
-  ⟨true,  p [], false, false, false, [⟨2, p [(0,1)], 1⟩], []⟩,
-  ⟨false, p [], true,  false, false, [⟨3, p [(0,2)], 2⟩], [⟨4, .left, false, true⟩]⟩,
-  ⟨false, p [], false, false, false, [], []⟩,
-  ⟨true,  p [(0,2)], false, false, false, [], []⟩]⟩
-
-def ord : Nat → Nat := fun t => t
-def S : Sched := ⟨ord, cgrOf D⟩
-def v : Val := ⟨fun _ => true, fun _ => true, fun s => 20 + s, fun _ _ => true⟩
-def run : Nat → Bool := fun b => b < 5
-/-- a cycle in which `N` is not ready: nothing that depends on it runs -/
-def v' : Val := ⟨fun b => b != 2, fun _ => true, fun s => 20 + s, fun _ _ => true⟩
-def run' : Nat → Bool := fun _ => false
-
-theorem accepted : accept D ord = true := by decide
-theorem noEdges : ((List.range 5).all fun a => (List.range 5).all fun b => !cgrOf D a b) = true := by decide
-theorem cycleEager : cycleEagerB D v S run = true := by decide
-theorem cycleEager' : cycleEagerB D v' S run' = true := by decide
-theorem cycleRR : cycleRRB D v S (fun t => t) run = true := by decide
-
-end TxV.Core.Ex2
